@@ -688,11 +688,13 @@ def c20_overlay(vc, scr):
 
 
 register("C20", title="no data races", pkg=".", race=True,
-         rule_more='api.go compiled with yield points at the accessor entries, stalled 2 ms while the state is replaced; stale-revision config writers; sweep rounds with a 1 ms expiration; restore rounds with and without bans; first JOIN of churn sessions',
+         rule_more='api.go compiled with yield points at the accessor entries, stalled 2 ms while the state is replaced; stale-revision config writers; sweep rounds with a 1 ms expiration; restore rounds with and without bans; first JOIN of churn sessions; the store closed (as FSM.Restore does) under six readers',
          parts=[{"test": "^TestVerifC20$", "race": True, "may_die": True, "children": {"quick": 6, "thorough": 48}, "cases": {"quick": 2, "thorough": 4},
                  "overlay_hook": c20_overlay, "name": "main_yield"},
                 {"pkg": "./internal/outputstream", "name": "outputstream_real", "test": "^TestVerifC08Real$", "race": True,
                  "children": {"quick": 2, "thorough": 8}, "cases": {"quick": 2, "thorough": 10}},
+                {"pkg": "./internal/raftstore", "name": "store_close", "test": "^TestVerifC20StoreClose$", "race": True,
+                 "children": {"quick": 2, "thorough": 8}, "cases": {"quick": 20, "thorough": 100}},
                 {"cluster": True, "tiers": ["thorough"], "children": {"quick": 0, "thorough": 4}, "cases": {"quick": 1, "thorough": 3},
                  "race": {"quick": True, "thorough": True}, "timeout": {"quick": 600, "thorough": 2400}}],
          parallel=6, post_run=c20_post_run,
